@@ -43,7 +43,7 @@ func C11_peers_agree() {
 	}
 	// extensions
 	var e Extension
-	switch vChoose("ext", 6) {
+	switch vChoose("ext", 7) {
 	case 4: // two offers, both with (different) parameters, both accepted
 		pv := vU8("paramvalue")
 		vAssume(vIn(pv, '0', '9'))
@@ -57,6 +57,12 @@ func C11_peers_agree() {
 		d.Extensions = []httphead.Option{httphead.NewOption("x-a", map[string]string{"p": "1"}), httphead.NewOption("x-b", nil)}
 		want := []string{"x-a", "x-b", "x-none"}[vChoose("extname", 3)]
 		u.Extension = func(o httphead.Option) bool { return string(o.Name) == want }
+	case 6: // the same extension offered twice with different parameters (the RFC 7692 fallback
+		// form), both accepted
+		pv := vU8("paramvalue")
+		vAssume(vIn(pv, '0', '9'))
+		d.Extensions = []httphead.Option{httphead.NewOption("x-a", map[string]string{"p": string([]byte{pv})}), httphead.NewOption("x-a", map[string]string{"q": "2"})}
+		u.Extension = func(o httphead.Option) bool { return true }
 	case 5: // offered with parameters, accepted by name only (the answer is the bare token)
 		if vBool("deflate") {
 			d.Extensions = []httphead.Option{(Parameters{ClientMaxWindowBits: 1}).Option()}
@@ -64,7 +70,9 @@ func C11_peers_agree() {
 			u.Negotiate = e.Negotiate
 		} else {
 			d.Extensions = []httphead.Option{httphead.NewOption("x-a", map[string]string{"p": "1"})}
-			u.Negotiate = func(o httphead.Option) (httphead.Option, error) { return httphead.Option{Name: append([]byte(nil), o.Name...)}, nil } // the argument is only valid during the call
+			u.Negotiate = func(o httphead.Option) (httphead.Option, error) {
+				return httphead.Option{Name: append([]byte(nil), o.Name...)}, nil
+			} // the argument is only valid during the call
 		}
 	case 3: // offered but the server negotiates nothing
 		d.Extensions = []httphead.Option{httphead.NewOption("x-a", nil)}
